@@ -59,7 +59,7 @@ def confirm_tree(wt):
             first = ""
             if os.path.exists(os.path.join(d, "notes.md")):
                 first = " ".join(open(os.path.join(d, "notes.md")).read().split())[:400]
-            meta = {"id": sid, "property": sid.split("-")[0], "round": 2, "breaks": first, "files": files,
+            meta = {"id": sid, "property": sid.split("-")[0], "round": int(re.search(r"-r(\d+)-", sid).group(1)) if re.search(r"-r(\d+)-", sid) else 1, "breaks": first, "files": files,
                     "author": "independent sub-agent given only the property text and a scratch worktree",
                     "demo_note": "demo.py puts its scratch worktree (%s) first on sys.path; to re-run it create a worktree there "
                                  "(git -C /repo worktree add --detach %s HEAD), apply patch.diff in it, run, remove it" % (wt, wt),
